@@ -14,7 +14,8 @@ use yverif::rng::Rng;
 fn real_leg(case: &str, obs: &str) -> Option<String> {
     // the command-search names need `$PATH` entries and substitutive built-ins the prologue of the
     // real-binary run cannot provide
-    if ["sbin", "sbout", "xtin", "xtpath"].iter().any(|n| case.contains(n)) {
+    // (and a signal caught while a probe *function* of the prologue runs would be handled inside it)
+    if ["sbin", "sbout", "xtin", "xtpath", "trapsig"].iter().any(|n| case.contains(n)) {
         return None;
     }
     let (seed, lines) = parse_case(case)?;
@@ -92,6 +93,7 @@ fn main() {
             budget: if o.thorough() { 26 } else { 18 },
             max_depth: if o.thorough() { 2 + (k % 4) as u32 } else { 1 + (k % 3) as u32 },
             errors: true,
+            sig: false,
             defined: vec![],
         };
         let lines = g.script();
